@@ -61,8 +61,19 @@ RULE = ("array level: 1-D (1..200 bins) and 2-D ((1..40)x(1..8)) rate arrays, ra
         "non-trivial when it has an active and an inactive bin and a bin with >= 2 events; distinct by (rate bits, counts). "
         "Wave 4: every test call (array drivers and public tests, except float32/float16 weights) is also replayed by the "
         "model from (rates, counts, uniform numbers) alone; one call in eight is repeated with rows of n_active +- 1 numbers "
-        "(count assertion); reported quantile checked against the reported entries.")
+        "(count assertion); reported quantile checked against the reported entries. Phase 2: arrays and public-test "
+        "regions with more than 65536 bins (not multiples of 65536; events around every multiple and in the last bins), "
+        "65535..10^6 events in one bin, big-endian rate / count arrays, uint16 counts; the DEFAULT random path "
+        "(random_numbers=None, 2-6 simulations, seed argument or caller-seeded global generator, stream re-created from the "
+        "real generator, no stubs) through the array drivers and the public tests; observed catalogs without region or with "
+        "a purely spatial region (bound to the forecast's region by the CL / Brier test, S-test afterwards on the same "
+        "object); sessions on ONE forecast object and two catalogs sharing a region object: evaluations, the per-cell map "
+        "and scalar / array-valued re-scalings in random order, forecast rates and catalog events snapshotted around every "
+        "evaluation.")
 
+# the exact-rational (Soft64) sampling weights of the pipeline model cost ~0.15 ms per bin: arrays beyond this size are
+# scored through the Float ops (c16_bll / c16_brier / c16_mode) with the simulated catalogs placed by the harness
+PIPE_MAX_BINS = 5000
 SIG_D17 = "binary-ll:active-bin-with-nonpositive-rate"
 
 # Representation classes (same mathematical arrays, other memory layout / dtype).  The property quantifies over "all rate
@@ -70,8 +81,8 @@ SIG_D17 = "binary-ll:active-bin-with-nonpositive-rate"
 # representation pyCSEP accepts must give the definition's value.
 LAYOUTS_2D = ["C", "F", "T", "colstep", "rowstep", "window", "rev", "revcol", "readonly"]
 LAYOUTS_1D = ["C", "step", "window", "rev", "readonly"]
-RATE_DTYPES = ["f8", "i8", "i4", "f4"]
-COUNT_DTYPES = ["i8", "f8", "?", "u1", "i4", "f4", "u8"]
+RATE_DTYPES = ["f8", "i8", "i4", "f4", "f8be"]          # ..be: big-endian (non-native byte order), phase 2
+COUNT_DTYPES = ["i8", "f8", "?", "u1", "i4", "f4", "u8", "u2", "i8be", "i4be"]
 # Rate dtypes beyond float64 / int64 / int32 / float32(>= 1e-3).  On them the implementation before fix D34 (/repo cf1bfa1)
 # departed from the definition (witnesses in corpus/C16/d34_*.json):
 #   rates-unsigned-int : `-forecast` wrapped around for uint8/16/32/64 rates (256.0 where the definition gives -2.51)
@@ -90,7 +101,9 @@ _EXTRA_DTYPES = {"rates-unsigned-int": ["u1", "u4", "u8"], "rates-narrow-float":
                  "rates-float32-tiny": ["f4tiny"]}
 _NP = {"f8": numpy.float64, "i8": numpy.int64, "i4": numpy.int32, "f4": numpy.float32, "f4tiny": numpy.float32,
        "?": numpy.bool_, "u1": numpy.uint8, "u4": numpy.uint32, "u8": numpy.uint64, "i1": numpy.int8, "i2": numpy.int16,
-       "f2": numpy.float16}
+       "f2": numpy.float16, "u2": numpy.uint16, "f8be": numpy.dtype(">f8"), "i8be": numpy.dtype(">i8"),
+       "i4be": numpy.dtype(">i4")}
+_F8 = ("f8", "f8be")
 
 
 def _rate_dtypes():
@@ -311,7 +324,7 @@ def _gen_counts(rng, g, rates, allow_zero_rate):
             for i in ok:
                 flat[i] = rng.randint(1, 3)
         else:
-            flat[rng.choice(list(ok))] = rng.randint(50, 300)
+            flat[rng.choice(list(ok))] = rng.choice([rng.randint(50, 300), 65535, 65536, 70000, 10 ** 6])
     return kind, flat.reshape(shape)
 
 
@@ -329,12 +342,23 @@ def _materialise(spec):
     plus their C-order float64 / int values (what the definition is evaluated on)"""
     shape = tuple(spec["shape"])
     rdt, cdt = spec.get("rdtype", "f8"), spec.get("cdtype", "f8" if spec.get("float_counts") else "i8")
-    vals = numpy.array([float.fromhex(x) for x in spec["rates"]]).reshape(shape)
+    if "rates_tile" in spec:
+        # big arrays are stored compactly: a pattern tiled to the size, and the few non-zero counts by flat index
+        size = int(numpy.prod(shape))
+        vals = numpy.resize(numpy.array([float.fromhex(x) for x in spec["rates_tile"]]), size).reshape(shape)
+        c0, c2 = numpy.zeros(size, dtype=int), numpy.zeros(size, dtype=int)
+        for i, c, cc in spec["counts_sparse"]:
+            c0[i], c2[i] = c, cc
+        c0, c2 = c0.reshape(shape), c2.reshape(shape)
+    else:
+        vals = numpy.array([float.fromhex(x) for x in spec["rates"]]).reshape(shape)
+        c0 = numpy.array(spec["counts"], dtype=int).reshape(shape)
+        c2 = numpy.array(spec["counts2"], dtype=int).reshape(shape)
     rates = _layout(vals.astype(_NP[rdt]), spec.get("rlayout", "C"), 3.0)
-    c0 = numpy.array(spec["counts"], dtype=int).reshape(shape)
-    c2 = numpy.array(spec["counts2"], dtype=int).reshape(shape)
     if cdt == "u1":
         c0, c2 = numpy.minimum(c0, 255), numpy.minimum(c2, 255)
+    if cdt == "u2":
+        c0, c2 = numpy.minimum(c0, 65535), numpy.minimum(c2, 65535)
     counts = _layout(c0.astype(_NP[cdt]), spec.get("clayout", "C"), 5)
     counts2 = _layout(c2.astype(_NP[cdt] if cdt != "?" else int), spec.get("clayout2", "C"), 5)
     if not (numpy.array_equal(rates, vals) and rates.shape == shape and counts.shape == shape):
@@ -425,12 +449,12 @@ def _gen_array_spec(rng, tier):
         shape = (rng.choice([1, 2, 5, 40, rng.randint(1, 40)]), rng.choice([1, 2, 8, rng.randint(1, 8)]))
     rep = rng.random() < LAYOUT_SHARE
     rdt = rng.choice(_rate_dtypes()) if rep and rng.random() < 0.6 else "f8"
-    if rdt in ("f8",):
+    if rdt in _F8:
         cls, rates = _gen_rates(rng, g, shape)
     else:
         cls, rates = _gen_rates_dtype(rng, g, shape, rdt)
     if not (rates > 0).any():
-        rates.ravel()[rng.randrange(rates.size)] = 10.0 ** rng.uniform(-9, 1) if rdt == "f8" else 1.0
+        rates.ravel()[rng.randrange(rates.size)] = 10.0 ** rng.uniform(-9, 1) if rdt in _F8 else 1.0
     ckind, counts = _gen_counts(rng, g, rates, allow_zero_rate=rng.random() < 0.25)
     lay = LAYOUTS_2D if len(shape) == 2 else LAYOUTS_1D
     spec = dict(shape=list(shape), cls=cls, ckind=ckind, rates=[float(x).hex() for x in rates.ravel()],
@@ -439,9 +463,25 @@ def _gen_array_spec(rng, tier):
     if rep:
         spec.update(rdtype=rdt, cdtype=rng.choice(COUNT_DTYPES), rlayout=rng.choice(lay), clayout=rng.choice(lay),
                     clayout2=rng.choice(lay), drivers=rng.choice([0, 1, 2]), rn_seed=rng.randrange(2 ** 32))
-        if rdt in ("f8",) and rng.random() < 0.5:
+        if rdt in _F8 and rng.random() < 0.5:
             spec["rlayout"] = rng.choice(["F", "T", "colstep", "rowstep"] if len(shape) == 2 else ["step", "rev"])
     return spec
+
+
+def _gen_big_array_spec(rng):
+    """lesson 4: more than 65536 bins and NOT a multiple of 65536 (a 50 x 50 cell region with 41 magnitude bins has
+    102500), events in the first bins, around every multiple of 65536 and in the last bins"""
+    size = rng.choice([65537, 65536 + rng.randrange(2, 65536), 102500, 131072 + rng.randrange(1, 30000)])
+    shape = [2500, 41] if size == 102500 and rng.random() < 0.7 else [size]
+    pat = [float(10.0 ** rng.uniform(-5, 0.5)) for _ in range(97)]
+    idx = {0, 1, 65535, 65536, 65537, size - 1, size - 2, rng.randrange(65536, size), rng.randrange(0, size)}
+    if size > 131072:
+        idx |= {131071, 131072, rng.randrange(131072, size)}
+    idx = sorted(i for i in idx if i < size and rng.random() < 0.8)
+    sparse = [[i, rng.choice([1, 1, 2, 70000]), rng.choice([1, 5])] for i in idx]
+    return dict(shape=shape, cls="big-tiled", ckind="sparse", rates_tile=[x.hex() for x in pat], counts_sparse=sparse,
+                float_counts=False, rdtype=rng.choice(["f8", "f8", "f8be"]), cdtype=rng.choice(["i8", "f8", "i8be"]),
+                rlayout="C", clayout="C", clayout2="C", drivers=rng.choice([0, 1]), rn_seed=rng.randrange(2 ** 32))
 
 
 def _gen_rates_dtype(rng, g, shape, rdt):
@@ -470,14 +510,14 @@ def _gen_test_spec(rng, tier):
     rep = rng.random() < 0.35
     rdt = rng.choice(_rate_dtypes()) if rep and rng.random() < 0.6 else "f8"
     rl = rng.choice(LAYOUTS_2D) if rep else "C"
-    if rep and rdt == "f8" and rng.random() < 0.6:
+    if rep and rdt in _F8 and rng.random() < 0.6:
         rl = rng.choice(["F", "T", "colstep", "rowstep"])
-    cls, data = _gen_rates(rng, g, (ns, nm)) if rdt == "f8" else _gen_rates_dtype(rng, g, (ns, nm), rdt)
+    cls, data = _gen_rates(rng, g, (ns, nm)) if rdt in _F8 else _gen_rates_dtype(rng, g, (ns, nm), rdt)
     k = rng.random()
     if k < 0.1 and ns > 1:
         data[rng.randrange(ns), :] = 0.0
     if not (data > 0).any():
-        data[rng.randrange(ns), rng.randrange(nm)] = 10.0 ** rng.uniform(-9, 1) if rdt == "f8" else 1.0
+        data[rng.randrange(ns), rng.randrange(nm)] = 10.0 ** rng.uniform(-9, 1) if rdt in _F8 else 1.0
     n = rng.choice([0, 1, 2, rng.randint(3, 20), rng.randint(0, 300), 300])
     allow_zero = rng.random() < 0.2
     flat = [(i, j) for i in range(ns) for j in range(nm) if allow_zero or data[i, j] > 0]
@@ -490,7 +530,7 @@ def _gen_test_spec(rng, tier):
         data[forced] = 0.0
         if not (data > 0).any():
             k = rng.choice([q for q in range(ns * nm) if (q // nm, q % nm) != forced])
-            data[k // nm, k % nm] = 10.0 ** rng.uniform(-9, 1) if rdt == "f8" else 1.0
+            data[k // nm, k % nm] = 10.0 ** rng.uniform(-9, 1) if rdt in _F8 else 1.0
         chosen = [c for c in chosen if data[c] > 0 or allow_zero] + [forced]
     events = []
     for e in range(n):
@@ -502,6 +542,9 @@ def _gen_test_spec(rng, tier):
                 nsim=rng.choice([1, 2, 3]) if tier == "quick" else rng.choice([1, 2, 3, 5]),
                 rn_seed=rng.randrange(2 ** 32), same_region=rng.random() < 0.5,
                 fscale=rng.choice([None, None, None, 2.0, 0.5, 10.0, 3.0, 0.1]), open_mag=rng.random() < 0.15)
+    r = rng.random()
+    if r < 0.2:
+        spec["cat_region"] = "none" if r < 0.1 else "nomag"
     if rep:
         spec.update(rdtype=rdt, rlayout=rl)
         if rdt != "f8":
@@ -515,7 +558,10 @@ def _build(spec):
     from csep.core.forecasts import GriddedForecast
     from csep.core.regions import CartesianGrid2D
     ns, nm, nx, dh = spec["ns"], spec["nm"], spec["nx"], spec["dh"]
-    data = numpy.array([[float.fromhex(x) for x in row] for row in spec["data"]], dtype=float).reshape(ns, nm)
+    if "data_tile" in spec:
+        data = numpy.resize(numpy.array([float.fromhex(x) for x in spec["data_tile"]]), ns * nm).reshape(ns, nm)
+    else:
+        data = numpy.array([[float.fromhex(x) for x in row] for row in spec["data"]], dtype=float).reshape(ns, nm)
     origins = numpy.array([[spec["x0"] + dh * (k % nx), spec["y0"] + dh * (k // nx)] for k in range(ns)])
     mags = [spec["m0"] + spec["dm"] * k for k in range(nm)]
     region = CartesianGrid2D.from_origins(origins, dh=dh, magnitudes=mags)
@@ -539,7 +585,15 @@ def _build(spec):
         mag = mags[j] + spec["dm"] * (fm if not (spec.get("open_mag") and j == nm - 1) else 1.0 + 4.0 * fm)
         ev.append((str(k), 1000 * k, origins[i, 1] + dh * fy, origins[i, 0] + dh * fx, 10.0, mag))
         cnt[i, j] += 1
-    cat_region = fore.region if spec["same_region"] else CartesianGrid2D.from_origins(origins, dh=dh, magnitudes=mags)
+    for i, j, c in spec.get("events_bulk", []):          # many events in one bin, generated compactly
+        mag = mags[j] + 0.5 * spec["dm"]
+        ev += [(f"b{i}_{j}_{q}", 1000 * q, origins[i, 1] + 0.5 * dh, origins[i, 0] + 0.5 * dh, 10.0, mag) for q in range(c)]
+        cnt[i, j] += c
+    # how the observed catalog comes: bound to the forecast's region object, to an equal region of its own, to NO region,
+    # or to a purely spatial region (magnitudes None) - the CL and Brier tests then grid it on the forecast's region (D40)
+    cr = spec.get("cat_region") or ("same" if spec["same_region"] else "equal")
+    cat_region = dict(same=fore.region, equal=CartesianGrid2D.from_origins(origins, dh=dh, magnitudes=mags), none=None,
+                      nomag=CartesianGrid2D.from_origins(origins, dh=dh))[cr]
     cat = CSEPCatalog(data=ev, region=cat_region, name="catalog")
     return fore, cat, data, cnt
 
@@ -608,7 +662,7 @@ def _score_entries(run, drv, pending, case, mode, fname, data, cnt, rn, obs, td,
     # Not sent when the weights are formed in a narrow floating dtype (unit != 0: either placement is allowed there).
     if unit == 0.0 and nsim > 0:
         r1 = numpy.asarray(rates1d if rates_exact is None else rates_exact, dtype=float).ravel()
-        if len(r1) == len(obs1d) and numpy.all(numpy.isfinite(r1)):
+        if len(r1) == len(obs1d) and numpy.all(numpy.isfinite(r1)) and len(r1) <= PIPE_MAX_BINS:
             dd = dims or [len(r1)]
             j = drv.ask(f"c16_pipe {'B' if mode == 'B' else 'L'} {_lst(dd, str)} {_lst(r1, _frac)} {_lst(r1, _bits)} "
                         f"{_lst(obs1d, lambda c: str(int(c)))} {_rows_txt(rn)}")
@@ -634,7 +688,7 @@ def _wrong_width(run, drv, pending, case, mode, fn, args, n_active, nsim, g, rat
         run.count(f"wrong-width-accepted-{mode}")
         return
     r1 = numpy.asarray(rates1d, dtype=float).ravel()
-    if len(r1) == len(counts1d) and numpy.all(numpy.isfinite(r1)):
+    if len(r1) == len(counts1d) and numpy.all(numpy.isfinite(r1)) and len(r1) <= PIPE_MAX_BINS:
         dd = dims or [len(r1)]
         j = drv.ask(f"c16_pipe {'B' if mode == 'B' else 'L'} {_lst(dd, str)} {_lst(r1, _frac)} {_lst(r1, _bits)} "
                     f"{_lst(counts1d, lambda c: str(int(c)))} {_rows_txt(rn)}")
@@ -651,13 +705,19 @@ def _test_case(run, drv, pending, spec, tag="test"):
     case = dict(spec=spec, kind="test", tag=tag)
     fc = cnt.ravel().tolist()
     nontriv = 0 < sum(1 for c in fc if c > 0) < len(fc) and max(fc) >= 2
-    run.case(dict(kind="test", shape=[ns, nm], cls=spec["cls"], n_obs=len(spec["events"]),
+    cr = spec.get("cat_region")
+    run.count(f"catalog-region-{cr or ('same' if spec['same_region'] else 'equal')}")
+    run.case(dict(kind="test", shape=[ns, nm], cls=spec["cls"], n_obs=int(cnt.sum()),
                   zeros=int((data == 0).sum()), tag=tag, rdtype=rdt, rlayout=rl),
              (data.tobytes(), cnt.tobytes(), rdt, rl) if nontriv else None)
     run.count(f"forecast-dtype-{rdt}")
     run.count(f"forecast-layout-{rl}")
-    for mode, fn in (("S", be.binary_spatial_test), ("CL", be.binary_conditional_likelihood_test),
-                     ("B", br.brier_score_test)):
+    modes = [("S", be.binary_spatial_test), ("CL", be.binary_conditional_likelihood_test), ("B", br.brier_score_test)]
+    if cr == "none":
+        # a catalog without region cannot be gridded by the S-test; the CL / Brier test binds the forecast's region to it
+        # (documented fallback), after which the S-test works on the same object: history CL/B first, then S
+        modes = [modes[1], modes[2], modes[0]] if spec["rn_seed"] % 2 else [modes[2], modes[0], modes[1]]
+    for mode, fn in modes:
         obs1d = cnt.sum(axis=1) if mode == "S" else cnt.ravel()
         n_active = int((obs1d > 0).sum())
         rn = g.random((nsim, n_active))
@@ -678,6 +738,9 @@ def _test_case(run, drv, pending, spec, tag="test"):
         if spec["rn_seed"] % 8 == 0:
             _wrong_width(run, drv, pending, case, mode, fn, (fore, cat), n_active, nsim, g,
                          rex if mode == "S" else data.ravel(), [int(c) for c in obs1d], [ns, nm] if mode == "B" else None)
+    if cr in ("none", "nomag") and getattr(cat, "region", None) is not fore.region:
+        run.oracle_failure(case, f"a catalog that came without a space-magnitude region ({cr}) is bound to "
+                                 f"{getattr(cat, 'region', None)!r} after the CL / Brier test, not to the forecast's region")
     _cells_check(run, drv, pending, case, fore, cat, data, cnt, rdt)
 
 
@@ -747,6 +810,259 @@ def _underflows(x, dt):
     """is 1 - exp(-x) zero in the floating dtype dt (exp(-x) rounds to 1)"""
     with numpy.errstate(all="ignore"):
         return bool(dt(1.0) - numpy.exp(-dt(x)) == dt(0.0))
+
+
+# ----------------------------------------------------------------------------- phase 2: default random path, sessions
+def _guard(run, case, fn, *a):
+    """lesson 6: a deviation that makes the EXAMINATION of an implementation output fail (wrong type / shape / length) is a
+    reported failure with the case as replay, never a crash of the harness"""
+    try:
+        return fn(*a)
+    except (AttributeError, TypeError, ValueError, IndexError, KeyError, OverflowError, ArithmeticError) as e:
+        import traceback
+        w = traceback.extract_tb(e.__traceback__)[-1]
+        run.oracle_failure(case, f"the implementation's output could not be examined ({type(e).__name__}: {e}; "
+                                 f"c16.py:{w.lineno})")
+        return None
+
+
+def _rej_sims(rates1d, n_active, nsim, stream):
+    """the simulated catalogs of the rejection loop (random_numbers=None) for the given stream of uniform numbers;
+    None when the stream runs out"""
+    r = numpy.where(numpy.asarray(rates1d, dtype=float) <= 0.0, 0.0, numpy.asarray(rates1d, dtype=float))
+    w = numpy.cumsum(r)
+    w = w / w[-1]
+    pos, sims = 0, []
+    for _ in range(nsim):
+        arr, active = numpy.zeros(len(r), dtype=int), 0
+        while active < n_active:
+            if pos >= len(stream):
+                return None
+            loc = int(numpy.searchsorted(w, stream[pos], side="right"))
+            pos += 1
+            if arr[loc] == 0:
+                arr[loc] = 1
+                active += 1
+        sims.append(arr)
+    return sims
+
+
+def _gen_default_spec(rng, tier):
+    """lesson 5: random_numbers NOT injected, num_simulations >= 2, with the seed argument or with the ambient global
+    generator seeded by the caller. Forecasts whose rejection loop terminates quickly: rates within two decades, at most
+    half of the positive bins active."""
+    ns = rng.choice([2, 3, 5, 8, 13, rng.randint(2, 20)])
+    nm = rng.choice([1, 2, 3, 4])
+    data = [[float(10.0 ** rng.uniform(-1, 1)) for _ in range(nm)] for _ in range(ns)]
+    if rng.random() < 0.3:
+        data[rng.randrange(ns)][rng.randrange(nm)] = 0.0
+    pos = [(i, j) for i in range(ns) for j in range(nm) if data[i][j] > 0]
+    pos_rows = sorted({i for i, _ in pos})
+    rows = rng.sample(pos_rows, rng.randint(1, max(1, len(pos_rows) // 2)))
+    cells = [c for c in pos if c[0] in rows]
+    cells = rng.sample(cells, rng.randint(1, max(1, min(len(cells), len(pos) // 2))))
+    events = []
+    for e in range(rng.choice([1, 2, 3, len(cells), 2 * len(cells), rng.randint(1, 30)])):
+        i, j = cells[e] if e < len(cells) and rng.random() < 0.8 else rng.choice(cells)
+        events.append([i, j, rng.uniform(0.2, 0.8).hex(), rng.uniform(0.2, 0.8).hex(), rng.uniform(0.2, 0.8).hex()])
+    test = dict(ns=ns, nm=nm, cls="two-decades", data=[[x.hex() for x in row] for row in data], events=events,
+                nx=rng.randint(1, ns), dh=rng.choice([0.1, 0.5, 1.0]), x0=float(rng.randint(-20, 20)),
+                y0=float(rng.randint(-20, 20)), m0=rng.choice([2.5, 4.0, 4.95]), dm=rng.choice([0.1, 0.5, 1.0]), nsim=1,
+                rn_seed=0, same_region=rng.random() < 0.5, fscale=None, open_mag=False)
+    return dict(test=test, nsim=rng.choice([2, 2, 3, 4, 6]), seed=rng.choice([0, 1, 7, 123456789, rng.randrange(2 ** 32)]),
+                seeding=rng.choice(["arg", "ambient"]), level=rng.choice(["array", "public"]), verbose=rng.random() < 0.2)
+
+
+def _default_case(run, drv, pending, spec, tag="default"):
+    import contextlib
+    import io
+    from csep.core import binomial_evaluations as be
+    from csep.core import brier_evaluations as br
+    fore, cat, data, cnt = _build(spec["test"])
+    ns, nm = data.shape
+    nsim, seed = spec["nsim"], spec["seed"]
+    case = dict(spec=spec, kind="default", tag=tag)
+    run.case(dict(kind="default", shape=[ns, nm], nsim=nsim, seeding=spec["seeding"], level=spec["level"], tag=tag),
+             (data.tobytes(), cnt.tobytes(), nsim, seed, spec["seeding"], spec["level"]))
+    run.count(f"default-path-{spec['level']}-{spec['seeding']}")
+    state = numpy.random.get_state()
+    try:
+        numpy.random.seed(seed)
+        stream = numpy.random.uniform(0, 1, size=20000)
+        if spec["level"] == "public":
+            calls = [("S", be.binary_spatial_test, (fore, cat)), ("CL", be.binary_conditional_likelihood_test, (fore, cat)),
+                     ("B", br.brier_score_test, (fore, cat))]
+        else:
+            calls = [("CL", be._binary_likelihood_test, (numpy.array(data), numpy.array(cnt))),
+                     ("S", be._binary_likelihood_test, (data.sum(axis=1), cnt.sum(axis=1))),
+                     ("B", br._brier_score_test, (numpy.array(data), numpy.array(cnt)))]
+        for mode, fn, args in calls:
+            if mode == "S":
+                with numpy.errstate(all="ignore"):
+                    r1 = numpy.asarray(fore.spatial_counts() if spec["level"] == "public" else args[0], dtype=float)
+                o1 = cnt.sum(axis=1)
+            else:
+                r1, o1 = data.ravel(), cnt.ravel()
+            n_active = int((o1 > 0).sum())
+            ref = _rej_sims(r1, n_active, nsim, stream)
+            if ref is None:
+                run.count("default-path-stream-too-short")
+                continue
+            kw = dict(num_simulations=nsim, seed=seed if spec["seeding"] == "arg" else None)
+            if spec["level"] == "array" or spec["verbose"]:
+                kw["verbose"] = bool(spec["verbose"])
+            if spec["seeding"] == "ambient":
+                numpy.random.seed(seed)
+            try:
+                with numpy.errstate(all="ignore"), contextlib.redirect_stdout(io.StringIO()):
+                    res = fn(*args, **kw)
+            except Exception as e:
+                run.oracle_failure(case, f"{fn.__name__} (random_numbers=None, {kw}) raised {type(e).__name__}: {e}")
+                continue
+
+            def examine():
+                if spec["level"] == "public":
+                    qs, obs, td = res.quantile, float(res.observed_statistic), [float(x) for x in res.test_distribution]
+                else:
+                    qs, obs, td = res[0], float(res[1]), [float(x) for x in res[2]]
+                if len(td) != nsim:
+                    run.oracle_failure(case, f"{fn.__name__}: {len(td)} simulated entries for {nsim} simulations")
+                    return
+                want = sum(1 for x in td if x <= obs) / nsim
+                if float(qs) != want:
+                    run.oracle_failure(case, f"{fn.__name__}: quantile {float(qs)!r} but {int(want * nsim)} of {nsim} "
+                                             f"simulated entries are <= the observed one")
+                chk = _check_brier if mode == "B" else _check_binary
+                orates = [float(x) for x in r1]
+                vals = [obs] + td
+                tols = [chk(run, case, f"{fn.__name__} observed (default random path)", obs, orates, [int(c) for c in o1])]
+                for k in range(nsim):
+                    tols.append(chk(run, case, f"{fn.__name__} simulated[{k}] (default random path, seed {seed})", td[k],
+                                    orates, [int(c) for c in ref[k]]))
+                dd = [ns, nm] if mode == "B" else [len(r1)]
+                j = drv.ask(f"c16_stream {'B' if mode == 'B' else 'L'} {_lst(dd, str)} {_lst(r1, _frac)} {_lst(r1, _bits)} "
+                            f"{_lst(o1, lambda c: str(int(c)))} {nsim} {_lst(stream[:4000], _frac)}")
+                pending.append((case, "pipe", [j], dict(vals=vals, tols=tols, sims=ref, qs=qs, fname=fn.__name__), None))
+            _guard(run, case, examine)
+    finally:
+        numpy.random.set_state(state)
+
+
+def _gen_session_spec(rng, tier):
+    """lesson 1: ONE forecast object, two catalogs (sharing the forecast's region object, or arriving without region),
+    a random sequence of evaluations and re-scalings of the forecast"""
+    test = _gen_test_spec(rng, tier)
+    for k in ("rdtype", "rlayout"):
+        test.pop(k, None)
+    test["fscale"], test["nsim"] = None, rng.choice([1, 2])
+    test["cat_region"] = rng.choice(["same", "same", "equal", "none", "nomag"])
+    ns, nm = test["ns"], test["nm"]
+    ev2 = [[rng.randrange(ns), rng.randrange(nm), rng.uniform(0.2, 0.8).hex(), rng.uniform(0.2, 0.8).hex(),
+            rng.uniform(0.2, 0.8).hex()] for _ in range(rng.choice([0, 1, 3, rng.randint(1, 40)]))]
+    steps = []
+    for _ in range(rng.randint(3, 7)):
+        r = rng.random()
+        if r < 0.3:
+            kind = rng.choice(["scalar", "scalar", "one", "array-full", "array-col", "array-row"])
+            steps.append(["scale", kind, rng.choice([0.5, 2.0, 3.0, 0.1, 10.0]), rng.randrange(2 ** 32)])
+        else:
+            steps.append([rng.choice(["S", "CL", "B", "cells"]), rng.choice([0, 0, 1]), rng.randrange(2 ** 32)])
+    return dict(test=test, events2=ev2, steps=steps)
+
+
+def _session_case(run, drv, pending, spec, tag="session"):
+    from csep.core import binomial_evaluations as be
+    from csep.core import brier_evaluations as br
+    from csep.core.catalogs import CSEPCatalog
+    t = spec["test"]
+    fore, cat0, base, cnt0 = _build(t)
+    # the second catalog shares the FIRST catalog's region object (possibly None: bound later by a CL / Brier test)
+    t2 = dict(t, events=spec["events2"])
+    _, cat1_tmp, _, cnt1 = _build(t2)
+    cat1 = CSEPCatalog(data=cat1_tmp.catalog.copy(), region=cat0.region, name="catalog2")
+    cats, cnts = [cat0, cat1], [cnt0, cnt1]
+    ns, nm = base.shape
+    case = dict(spec=spec, kind="session", tag=tag)
+    run.case(dict(kind="session", shape=[ns, nm], steps=len(spec["steps"]), cat_region=t.get("cat_region"), tag=tag),
+             (base.tobytes(), cnt0.tobytes(), cnt1.tobytes(), repr(spec["steps"])))
+    run.count("session")
+    factor = numpy.ones((ns, nm))
+    snaps = [c.catalog.copy() for c in cats]
+    fns = dict(S=be.binary_spatial_test, CL=be.binary_conditional_likelihood_test, B=br.brier_score_test)
+    for k, st in enumerate(spec["steps"]):
+        if st[0] == "scale":
+            _, kind, c, sd = st
+            g = numpy.random.default_rng(sd)
+            val = dict(scalar=c, one=1)[kind] if kind in ("scalar", "one") else \
+                g.choice([0.5, 2.0, 4.0], size=dict([("array-full", (ns, nm)), ("array-col", (ns, 1)), ("array-row", (nm,))])[kind])
+            try:
+                fore.scale(val)
+            except Exception as e:
+                run.oracle_failure(case, f"step {k}: scale({kind}) raised {type(e).__name__}: {e}")
+                return
+            factor = numpy.ones((ns, nm)) * val
+            run.count(f"session-scale-{kind}")
+            continue
+        mode, ci, sd = st
+        cat, cnt = cats[ci], cnts[ci]
+        with numpy.errstate(all="ignore"):
+            now = _guard(run, case, lambda: numpy.array(fore.data, dtype=float))
+        if now is None:
+            return
+        want = base * factor
+        if now.shape != want.shape or not numpy.array_equal(now, want):
+            run.oracle_failure(case, f"step {k}: the forecast's rates are no longer data x the scale factor set last "
+                                     f"(an earlier evaluation or scaling left the forecast changed)")
+            return
+        if mode in ("S", "cells") and (cat.region is None):
+            continue                    # not yet bound: the S-test / the map cannot grid a catalog without region
+        if mode == "cells":
+            _cells_check(run, drv, pending, case, fore, cat, now, cnt, "f8")
+        else:
+            obs1d = cnt.sum(axis=1) if mode == "S" else cnt.ravel()
+            n_active = int((obs1d > 0).sum())
+            g = numpy.random.default_rng(sd)
+            nsim = t["nsim"]
+            rn = g.random((nsim, n_active))
+            try:
+                with numpy.errstate(all="ignore"):
+                    res = fns[mode](fore, cat, num_simulations=nsim, random_numbers=rn)
+                    rex = numpy.asarray(fore.spatial_counts(), dtype=float) if mode == "S" else None
+            except Exception as e:
+                run.oracle_failure(case, f"step {k}: {fns[mode].__name__} raised {type(e).__name__}: {e}")
+                return
+            run.count(f"session-{mode}")
+            _guard(run, case, lambda: _score_entries(
+                run, drv, pending, case, mode, f"step {k} {fns[mode].__name__}", now, cnt, rn,
+                float(res.observed_statistic), [float(x) for x in res.test_distribution], "f8", qs=res.quantile,
+                rates_exact=rex, dims=[ns, nm] if mode == "B" else None))
+            if mode in ("CL", "B") and t.get("cat_region") in ("none", "nomag") and cat.region is not fore.region:
+                run.oracle_failure(case, f"step {k}: the catalog without space-magnitude region was not bound to the "
+                                         f"forecast's region by {fns[mode].__name__}")
+                return
+        # nothing the evaluation was given may have changed: the forecast's rates, both catalogs' events
+        with numpy.errstate(all="ignore"):
+            after = _guard(run, case, lambda: numpy.array(fore.data, dtype=float))
+        if after is None or after.shape != now.shape or not numpy.array_equal(after, now):
+            run.oracle_failure(case, f"step {k}: {mode} changed the forecast's rates")
+            return
+        for q, (c_, sn) in enumerate(zip(cats, snaps)):
+            if c_.catalog.shape != sn.shape or c_.catalog.tobytes() != sn.tobytes():
+                run.oracle_failure(case, f"step {k}: {mode} changed the events of catalog {q}")
+                return
+
+
+def _gen_big_test_spec(rng):
+    """lesson 4 through the public tests: a region of 1600+ cells x 41 magnitude bins (> 65536 bins, not a multiple of
+    65536) and a catalog of > 65535 events in one bin"""
+    ns, nm = 1600 + rng.randrange(1, 200), 41
+    cells = [(0, 0), (ns - 1, nm - 1), (ns - 1, 0), (65536 // nm, 65536 % nm), (65536 // nm + 1, 3), (rng.randrange(ns), rng.randrange(nm))]
+    events = [[i, j, rng.uniform(0.2, 0.8).hex(), rng.uniform(0.2, 0.8).hex(), rng.uniform(0.2, 0.8).hex()]
+              for i, j in rng.sample(cells, rng.randint(2, len(cells))) for _ in range(rng.choice([1, 2]))]
+    bulk = [[ns - 2, nm - 2, rng.choice([65536, 66000, 70001])]] if rng.random() < 0.6 else []
+    return dict(ns=ns, nm=nm, cls="big-tiled", data_tile=[float(10.0 ** rng.uniform(-6, -1)).hex() for _ in range(89)],
+                events=events, events_bulk=bulk, nx=40, dh=0.1, x0=float(rng.randint(-20, 20)), y0=float(rng.randint(-20, 20)),
+                m0=2.5, dm=0.1, nsim=1, rn_seed=rng.randrange(2 ** 32) | 1, same_region=True, fscale=None, open_mag=False)
 
 
 def _flush_pipe(run, case, line, exp):
@@ -839,10 +1155,29 @@ def _fixed_array_specs():
 def run(run, rng, tier):
     drv, pending = Driver(), []
     for c in _corpus_cases():
-        (_array_case if c.get("kind") == "array" else _test_case)(run, drv, pending, c["spec"], tag="corpus")
+        _KINDS.get(c.get("kind"), _test_case)(run, drv, pending, c["spec"], tag="corpus")
     for spec in _fixed_array_specs():
         _array_case(run, drv, pending, spec, tag="fixed")
     n_arr, n_test = (5000, 1500) if tier == "quick" else (60000, 18000)
+    # phase 2 classes first (cheap): sizes, default random path, sessions on shared objects
+    for _ in range(2 if tier == "quick" else 12):
+        _array_case(run, drv, pending, _gen_big_array_spec(rng), tag="big")
+    for _ in range(1 if tier == "quick" else 4):
+        _test_case(run, drv, pending, _gen_big_test_spec(rng), tag="big")
+    _flush(run, drv, pending)
+    drv = Driver()
+    for _ in range(120 if tier == "quick" else 2500):
+        _default_case(run, drv, pending, _gen_default_spec(rng, tier))
+        if len(pending) >= 600:
+            _flush(run, drv, pending)
+            drv = Driver()
+    for _ in range(150 if tier == "quick" else 3000):
+        _session_case(run, drv, pending, _gen_session_spec(rng, tier))
+        if len(pending) >= 600:
+            _flush(run, drv, pending)
+            drv = Driver()
+    _flush(run, drv, pending)
+    drv = Driver()
     for _ in range(n_arr):
         _array_case(run, drv, pending, _gen_array_spec(rng, tier))
         if len(pending) >= 1000:
@@ -861,8 +1196,8 @@ def run(run, rng, tier):
 def replay(run, payload):
     case = payload["case"]
     drv, pending = Driver(), []
-    if case.get("kind") == "array":
-        _array_case(run, drv, pending, case["spec"], tag="replay")
-    else:
-        _test_case(run, drv, pending, case["spec"], tag="replay")
+    _KINDS.get(case.get("kind"), _test_case)(run, drv, pending, case["spec"], tag="replay")
     _flush(run, drv, pending)
+
+
+_KINDS = dict(array=_array_case, test=_test_case, default=_default_case, session=_session_case)
